@@ -184,10 +184,16 @@ type ChunkReader struct {
 	// EOFWithLast: the read that delivers the last byte also returns Err (quic-go returns the
 	// final bytes together with io.EOF when the FIN arrived with them)
 	EOFWithLast bool
-	zeroNext    bool
+	// Before, when set, runs at the start of every Read call: whatever else the process does
+	// between two reads of this stream (other streams being parsed, ...)
+	Before   func()
+	zeroNext bool
 }
 
 func (r *ChunkReader) Read(p []byte) (int, error) {
+	if r.Before != nil {
+		r.Before()
+	}
 	r.Reads++
 	r.Requested += int64(len(p))
 	if r.ZeroReads {
